@@ -10,9 +10,15 @@ import (
 )
 
 // G is the single source of randomness of a run (PCG seeded from VERIF_SEED).
-type G struct{ r *rand.Rand }
+type G struct {
+	r *rand.Rand
+	// respelled Cache-Control field lines -> the canonical single line with the same directives
+	canon map[string]string
+}
 
-func newG(seed uint64, stream uint64) *G { return &G{rand.New(rand.NewPCG(seed, stream))} }
+func newG(seed uint64, stream uint64) *G {
+	return &G{r: rand.New(rand.NewPCG(seed, stream)), canon: map[string]string{}}
+}
 
 func (g *G) chance(p float64) bool { return g.r.Float64() < p }
 func (g *G) intn(n int) int        { return g.r.IntN(n) }
@@ -205,6 +211,7 @@ func (g *G) spellCC(ds []directive) []string {
 func (g *G) ccHeader(p *Profile, ds []directive) Hdr {
 	if g.chance(p.PCCSpell) {
 		if lines := g.spellCC(ds); len(lines) > 0 {
+			g.canon[strings.Join(lines, "\x00")] = joinDirectives(ds)
 			return Hdr{"Cache-Control", lines}
 		}
 	}
